@@ -211,6 +211,11 @@ def plan(chk):
     return specs
 
 
+def _dispatch(spec):
+    from .. import longrun
+    return longrun.long_case(spec) if spec.get("case") == "long" else dispatch(spec)
+
+
 def main():
     chk = core.Check("C15")
     core.build("release")
@@ -219,7 +224,9 @@ def main():
     specs = plan(chk)
     for sp in specs:
         sp["work"] = chk.workdir
-    for res in core.parallel(dispatch, specs):
+    from ..chain import COIN_NAMES
+    specs.insert(0, dict(case="long", callback="simplestats", coin=COIN_NAMES[(chk.seed + 3) % 8], seed=chk.seed, n=0, blocks=(140000 if chk.thorough else 70000), verify=False, work=chk.workdir))
+    for res in core.parallel(_dispatch, specs):
         chk.absorb(res)
     chk.finish(RULE, floor={"runs:release": 40, "runs:debug": 40, "chains_with_gap_sum_above_2^32": 4, "mean_multisets_sum_above_2^32": 500},
                assumptions=["no block has timestamp 0 (the code uses 0 as 'no previous block'); value sums stay below 2^64",
@@ -228,4 +235,5 @@ def main():
 
 
 def replay(spec):
-    core.replay_case("C15", {"chain": case, "mean": mean_case}, spec)
+    from .. import longrun
+    core.replay_case("C15", {"chain": case, "mean": mean_case, "long": longrun.long_case}, spec)
